@@ -160,6 +160,7 @@ func baseConfig() *Config {
 		SolverTimeoutMS: 30000,
 		Workers:         runtime.NumCPU(),
 		Solver:          "z3",
+		SolverLog:       os.Getenv("VERIF_SOLVERLOG"),
 	}
 }
 
